@@ -612,6 +612,13 @@ func (v Value) Export() (interface{}, error) {
 }
 
 func (v Value) export() interface{} {
+	return v.exportPath(map[*object]struct{}{})
+}
+
+// exportPath is export with the set of objects currently being exported, so that a
+// cyclic object graph (o.self = o) ends: an object met again on its own path is
+// returned as the original Value instead of being descended into forever.
+func (v Value) exportPath(path map[*object]struct{}) interface{} {
 	switch v.kind {
 	case valueUndefined:
 		return nil
@@ -638,6 +645,11 @@ func (v Value) export() interface{} {
 		case *goSliceObject:
 			return value.value.Interface()
 		}
+		if _, cyclic := path[obj]; cyclic {
+			return v
+		}
+		path[obj] = struct{}{}
+		defer delete(path, obj)
 		if obj.class == classArrayName {
 			result := make([]interface{}, 0)
 			lengthValue := obj.get(propertyLength)
@@ -652,7 +664,7 @@ func (v Value) export() interface{} {
 				if !obj.hasProperty(name) {
 					continue
 				}
-				value := obj.get(name).export()
+				value := obj.get(name).exportPath(path)
 
 				t = reflect.TypeOf(value)
 
@@ -698,7 +710,7 @@ func (v Value) export() interface{} {
 		obj.enumerate(false, func(name string) bool {
 			value := obj.get(name)
 			if value.IsDefined() {
-				result[name] = value.export()
+				result[name] = value.exportPath(path)
 			}
 			return true
 		})
